@@ -104,6 +104,9 @@ pub struct DlScenario {
     pub policy: u32,
     pub sched_seed: u64,
     pub tokio_seed: u64,
+    /// Start value of std's hash keys on the run's thread (iteration order of the product's HashMaps).
+    #[serde(default)]
+    pub hash_seed: u64,
     pub ending: DlEnding,
     /// At quiescence (consumers attached) let time pass: the runtime must not stop.
     pub idle_probe: bool,
@@ -211,6 +214,7 @@ pub fn generate(seed: u64, map: bool) -> DlScenario {
         policy: rng.below(4) as u32,
         sched_seed: root.sub("sched").next_u64(),
         tokio_seed: root.sub("tokio").next_u64(),
+        hash_seed: root.sub("hash").next_u64() | 1,
         ending,
         idle_probe: rng.chance(1, 3),
         max_steps: 40_000,
